@@ -1,6 +1,6 @@
 (* C06 — property theorems only. *)
 From Coq Require Import List Bool ZArith.
-From V Require Import C01.Model C06.Model C06.Proofs C06.Search C06.SearchProofs C06.LexLeader C06.LexCheck.
+From V Require Import C01.Model C06.Model C06.Proofs C06.LookAhead C06.Search C06.SearchProofs C06.Lcs C06.LexLeader C06.LexCheck.
 Import ListNotations.
 Open Scope Z_scope.
 
@@ -70,6 +70,44 @@ Print Assumptions backtracking_complete.
 Theorem unconstrained_good_is_common : forall P G f, NoDup (keys G) -> (good P G [] f <-> is_common P G f = true).
 Proof. exact good_is_common. Qed.
 Print Assumptions unconstrained_good_is_common.
+
+(* --- the look-ahead filter never removes a solution, so the search started from the filtered candidates (what the code
+   does) still finds every isomorphism respecting the constraints --- *)
+Theorem lookahead_is_safe : forall P G f s g,
+  NoDup (keys P) -> NoDup (keys G) -> (forall u v, ecol P u v <> None -> u <> v) ->
+  is_iso P G f = true -> In (s, g) f -> lookahead_ok P G s g = true.
+Proof. exact lookahead_never_removes_a_solution. Qed.
+Print Assumptions lookahead_is_safe.
+
+Theorem backtracking_with_lookahead_sound : forall P G cons choose f,
+  (forall left cand, left <> [] -> In (choose left cand) left) -> NoDup (keys P) ->
+  (forall a b, In (a, b) cons -> ~ In (b, a) cons) ->
+  In f (find_isomorphisms_la P G cons choose) ->
+  good P G cons f /\ (forall u, In u (keys P) <-> In u (map fst f)).
+Proof. exact find_isomorphisms_la_sound. Qed.
+Print Assumptions backtracking_with_lookahead_sound.
+
+Theorem backtracking_with_lookahead_complete : forall P G cons choose f,
+  (forall left cand, left <> [] -> In (choose left cand) left) -> NoDup (keys P) -> NoDup (keys G) ->
+  (forall u v, ecol P u v <> None -> u <> v) ->
+  (forall a b, In (a, b) cons -> ~ In (b, a) cons) ->
+  good P G cons f -> (forall u, In u (keys P) <-> In u (map fst f)) ->
+  exists f', In f' (find_isomorphisms_la P G cons choose) /\ (forall p, In p f <-> In p f').
+Proof. exact find_isomorphisms_la_complete. Qed.
+Print Assumptions backtracking_with_lookahead_complete.
+
+(* --- the shrinking search for the largest common sub-graph (no symmetry): everything returned is a common induced
+   sub-graph, all of one size; nothing larger exists; every common sub-graph of that size is returned --- *)
+Theorem shrinking_search_exact : forall P G choose,
+  (forall left cand, left <> [] -> In (choose left cand) left) -> NoDup (keys P) -> NoDup (keys G) ->
+  keys P <> [] -> keys G <> [] ->
+  let R := largest_common_subgraph P G choose in
+  (forall f, In f R -> good P G [] f /\ incl (map fst f) (keys P)) /\
+  (R <> [] -> exists s', (forall f, In f R -> List.length f = s') /\ none_bigger P G s' /\
+       forall f', good P G [] f' -> incl (map fst f') (keys P) -> List.length f' = s' -> exists f, In f R /\ (forall p, In p f' <-> In p f)) /\
+  (R = [] -> none_bigger P G 0).
+Proof. exact largest_common_subgraph_spec. Qed.
+Print Assumptions shrinking_search_exact.
 
 (* --- symmetry breaking: constraints that come from a stabiliser chain of the automorphism group select exactly one
    member of every class { m o a | a automorphism }, for every injective placement m.  groupb / chainb are evaluated
